@@ -238,6 +238,25 @@ func genProduce(prop string, seed uint64) *Plan {
 				g.fault(Fault{Kind: "kill_resp", Broker: -1, Key: 0, Nth: base + int(g.rng(1, 6))})
 			}
 		}
+		if g.pct(25) {
+			// load errors in the metadata while batches are staged in a
+			// request that has not been written yet (slow connection
+			// set-up), at the retry limit; the logger yields
+			for i := 0; i < int(g.rng(3, 6)); i++ {
+				g.fault(Fault{Kind: "err_after", Broker: -1, Key: 3, Nth: int(g.rng(2, 14)), Code: ErrLeaderNotAvailable})
+			}
+			// connection set-up is slow: requests wait, built, behind it
+			for i := 0; i < int(g.rng(2, 5)); i++ {
+				g.fault(Fault{Kind: "delay_resp", Broker: -1, Key: 18, Nth: int(g.rng(1, 9)), DurMs: g.pick(200, 1000, 3000)})
+			}
+			movesN = int(g.rng(2, 8))
+			k["retries"] = g.pick(0, 0, 1)
+			k["log_yield_pct"] = g.pick(2, 10, 30)
+			k["log_sleep_pct"] = g.pick(0, 30, 80)
+			k["log_sleep_max_us"] = g.pick(5000, 300000, 2000000) // a synchronous remote log sink
+			k["meta_max_ms"] = g.pick(500, 1000, 5000)
+			k["meta_min_ms"] = g.pick(10, 100)
+		}
 	case "C03":
 		k["max_buf_recs"] = g.pick(1, 1, 2, 3, 5)
 		if g.pct(40) {
